@@ -670,6 +670,7 @@ def run(ck):
                           "a negative value is not refused (or the refused write changed the register)", (res, dump_real_cfg(regs, layout)), "E:spsdk")
 
     run_config_model(ck, drv)
+    run_reset_hidden(ck, drv)
     run_phase3(ck, drv)
 
 
@@ -888,6 +889,149 @@ def run_config_model(ck, drv):
                 if rs.startswith("E:") and " " not in rs:
                     ms = ms.split(" ")[0]      # a failed load leaves the real object half-written; only the error class is compared
                 if not sc.compare((layout, little, ops, wh), rs, ms, "configuration path / alternative widths: implementation and model differ"):
+                    break
+
+
+# ------------------------------------------------------------------------------------------------ reset incl. hidden bit-fields (seeded change C11f)
+def gen_layout_hidden(rng, ctor):
+    """plain registers whose bit-fields are hidden (unnamed spec entries / `hidden=True`) about half of the time and carry non-zero reset values;
+    the register-level reset value is 0, lies in the bits no bit-field covers, or (rarely, spec path only) is arbitrary"""
+    regs, off = [], 0
+    for ri in range(rng.choice([1, 2, 3])):
+        width = rng.choice([8, 16, 32, 32, 64])
+        fields, pos = [], 0
+        while pos < width and len(fields) < 6:
+            if fields and rng.random() < 0.15:
+                break
+            w = max(1, min(rng.choice([1, 2, 3, 4, 8, 13, 16]), width - pos))
+            fields.append(dict(offset=pos, width=w, shift=0, enums=[], names=[], reset=rng.choice([0, 1, (1 << w) - 1, rng.randrange(1 << w), rng.randrange(1 << w)]),
+                               hidden=rng.random() < 0.5))
+            pos += w
+        k = rng.random()
+        tail = ((1 << width) - 1) & ~((1 << pos) - 1)
+        reset = 0 if (ctor or k < 0.5) else (rng.getrandbits(width) & tail) if k < 0.85 else rng.getrandbits(width)
+        regs.append(dict(kind="plain", width=width, offset=off, reverse=False, reset=reset, fields=fields, reserved=False, flip=False))
+        off += width // 8
+    return regs
+
+
+def build_real_ctor(layout, little):
+    """the same layout through the constructors (`Register(...)`, `RegsBitField(..., hidden=True)`, `add_bitfield`, `add_register`)"""
+    from spsdk.utils.misc import Endianness
+    from spsdk.utils.registers import Register, Registers, RegsBitField
+    import logging
+    logging.disable(logging.CRITICAL)
+    try:
+        regs = Registers(family="verif_dummy", feature="verif", base_endianness=Endianness.LITTLE if little else Endianness.BIG)
+    finally:
+        logging.disable(logging.NOTSET)
+    for ri, r in enumerate(layout):
+        reg = Register(name=f"REG{ri}", offset=r["offset"], width=r["width"], uid=f"r{ri}")
+        for fi, f in enumerate(r["fields"]):
+            reg.add_bitfield(RegsBitField(reg, fname(ri, fi, f), f["offset"], f["width"], uid=f"r{ri}f{fi}", reset_val=f["reset"] or None, hidden=f["hidden"]))
+        regs.add_register(reg)
+    return regs
+
+
+def run_reset_hidden(ck, drv):
+    rng = ck.rng
+    n_layouts = ck.budget(400, 6000)
+    sh = ck.stream("reset_hidden", f"{n_layouts} layouts of plain registers whose bit-fields are hidden about half of the time (unnamed entries of a specification / hidden=True "
+                   "through the constructors) and carry non-zero reset values, built through _load_from_spec or through Register / RegsBitField / add_register; rounds of "
+                   "(whole-register write | parse of random bytes | bit-field write) then (Register.reset_value | Registers.reset_values); state compared with the model after "
+                   "every op; oracle from the layout alone: after a reset EVERY bit-field, hidden or not, reads its reset value and the register reads the register-level reset "
+                   "bits outside the bit-fields or-ed with every bit-field's reset value; get_config(diff=True) of a freshly reset object names no bit-field; "
+                   "non-trivial = distinct (layout, construction, op sequence)")
+    for li in range(n_layouts):
+        ctor = rng.random() < 0.5
+        layout = gen_layout_hidden(rng, ctor)
+        little = rng.random() < 0.5
+        try:
+            regs = build_real_ctor(layout, little) if ctor else build_real_cfg(layout, little)
+        except Exception as exc:  # noqa: BLE001
+            sh.expect(False, (layout, ctor), f"generated layout does not load: {type(exc).__name__}: {exc}")
+            continue
+        lines = model_lines_cfg(layout, little)
+        n_setup = len(lines)
+        real, what, ops = ["ok " + dump_real_cfg(regs, layout)], ["state after load"], []
+        total = sum(r["width"] // 8 for r in layout)
+        # what the specification says, register by register (input only)
+        spec_reset = []
+        for r in layout:
+            ini, api = _initial_and_api_reset(r)
+            cur, per_field = r["reset"], []
+            for f in r["fields"]:
+                m = (1 << f["width"]) - 1
+                if f["reset"]:
+                    cur = (cur & ~(m << f["offset"])) | (f["reset"] << f["offset"])
+                    per_field.append(f["reset"])
+                else:
+                    per_field.append((cur >> f["offset"]) & m)
+            spec_reset.append((ini, api, per_field))
+        for rnd in range(rng.choice([1, 2, 3])):
+            for _ in range(rng.choice([1, 1, 2, 3])):
+                ri = rng.randrange(len(layout))
+                r = layout[ri]
+                reg = regs.find_reg(f"REG{ri}")
+                c = rng.random()
+                if c < 0.5:
+                    v = rng.choice([0, (1 << r["width"]) - 1, rng.getrandbits(r["width"])])
+                    res = pyres(reg.set_value, v, True)
+                    lines.append(f"set_reg {ri} {v} 1")
+                    ops.append(("set_reg", ri, v))
+                elif c < 0.75:
+                    data = bytes(rng.getrandbits(8) for _ in range(total))
+                    res = pyres(regs.parse, data)
+                    lines.append(f"parse {data.hex()}")
+                    ops.append(("parse", data.hex()))
+                elif r["fields"]:
+                    fi = rng.randrange(len(r["fields"]))
+                    f = r["fields"][fi]
+                    v = gen_value(rng, f["width"])
+                    res = pyres(reg.find_bitfield(fname(ri, fi, f)).set_value, v)
+                    lines.append(f"set_field {ri} {fi} {v} 0")
+                    ops.append(("set_field", ri, fi, v))
+                else:
+                    continue
+                real.append(res[0] + " " + dump_real_cfg(regs, layout))
+                what.append(f"state after op {ops[-1]}")
+            if rng.random() < 0.5:
+                ri = rng.randrange(len(layout))
+                raw = rng.random() < 0.5
+                res = pyres(regs.find_reg(f"REG{ri}").reset_value, raw)
+                lines.append(f"reset {ri}")
+                ops.append(("reset", ri, raw))
+                which = [ri]
+            else:
+                res = pyres(regs.reset_values)
+                lines.append("reset_all")
+                ops.append(("reset_all",))
+                which = list(range(len(layout)))
+            real.append(res[0] + " " + dump_real_cfg(regs, layout))
+            what.append(f"state after op {ops[-1]}")
+            sh.note((layout, ctor, ops), cls=("ctor" if ctor else "spec") + "," + ops[-1][0])
+            sh.expect(res[0] == "ok", (layout, ctor, ops), "reset raised", res)
+            for ri in which:
+                r = layout[ri]
+                reg = regs.find_reg(f"REG{ri}")
+                ini, api, per_field = spec_reset[ri]
+                finding = "C11-reset-value-differs-from-initial-value" if ini != api else None
+                for fi, f in enumerate(r["fields"]):
+                    got = pyres(reg.find_bitfield(fname(ri, fi, f)).get_value)
+                    sh.expect(got == ("ok", per_field[fi]), (layout, ctor, ops, ri, fi), "after a reset a bit-field (hidden or not) does not read its reset value",
+                              got, per_field[fi], finding=finding)
+                got = pyres(reg.get_value, True)
+                sh.expect(got == ("ok", ini), (layout, ctor, ops, ri), "after a reset the register does not read the value a freshly loaded register holds "
+                          "(register-level reset bits outside the bit-fields | every bit-field's reset value)", got, ini, finding=finding)
+            if len(which) == len(layout):
+                gd = pyres(regs.get_config, True)
+                named = {k: v for k, v in gd[1].items() if v} if gd[0] == "ok" else None
+                sh.expect(gd[0] == "ok" and not named, (layout, ctor, ops), "get_config(diff=True) of a freshly reset object names a bit-field / register value", gd,
+                          finding=("C11-reset-value-differs-from-initial-value" if any(a != b for a, b, _ in spec_reset) else None))
+        if drv is not None:
+            ans = drv.batch(lines)
+            for rs, ms, wh in zip(real, ans[n_setup - 1:], what):
+                if not sh.compare((layout, ctor, little, ops, wh), rs, ms, "reset with hidden bit-fields: implementation and model differ"):
                     break
 
 
